@@ -116,7 +116,18 @@ def run(chk):
         blk = PC._block_of(K.stmt_of(a)) or []
         before = blk[: blk.index(K.stmt_of(a))] if K.stmt_of(a) in blk else []
         # armed by a preceding statement of the same block (possibly under `if <conn>.protocol is not None`: no protocol = connection already lost)
-        if any(M.contains(x, "$P.start_timeout()") for x in before):
+        # (restated after the fifth hunt) the wait is the client's own hold-back: it is bounded by its own timeout, and sock_read does not run
+        # during it - the peer is silent because it waits for the body that is held back here (a sock_read below the hold-back failed every
+        # expect100 request against a server that ignores Expect)
+        wcall = a.value if isinstance(a.value, ast.Call) else None
+        own = wcall is not None and norm.raw(wcall.func) in ("asyncio.wait", "asyncio.wait_for") and any(k.arg == "timeout" and not (isinstance(k.value, ast.Constant) and k.value.value is None) for k in wcall.keywords)
+        armed = [x for x in before if M.contains(x, "$P.start_timeout()")]
+        if own and not armed:
+            chk.ok("C18.readtimer", a, "the wait for `100 Continue` is bounded by its own timeout; the sock_read timer starts when the request has been sent")
+        elif own and armed:
+            chk.violation("C18.readtimer", armed[0], K.short(armed[0]), "no start_timeout() in front of the bounded wait for `100 Continue`",
+                          "sock_read runs during the client's own hold-back for `100 Continue`: the peer is silent only because it waits for the body that is held back, so with sock_read below the hold-back (1 s) every expect100 request to a healthy server that ignores Expect fails with SocketTimeoutError")
+        elif armed:
             chk.ok("C18.readtimer", a, "the sock_read timer is armed before the request waits for `100 Continue`")
         else:
             chk.violation("C18.readtimer", a, "await self._continue", "protocol.start_timeout() before the wait",
